@@ -14,8 +14,11 @@ RULE = ("cross/auto/event correlograms: random spike trains on the dyadic lattic
         "window on either/both sides, one or many epochs, kernel slice table compared with the model. "
         "distinct = distinct (reference, target, bin, window) / (samples, events, epochs, window)")
 PROVED = ("xcorr_histogram (bin p of the raw correlogram = number of pairs with lag in the half-open bin; sorted trains of any length), "
-          "ccFwd_spec, ccBack_id, ccCount_counts, ccBins_counts, ccOuter_counts, perievent_window (slice = lags in [-w0, w1)), nbins_odd")
-NOT_PROVED = "normalisations (rate, reverse), lag-0 zeroing, perievent-continuous nearest-sample / scatter: oracle + correspondence only"
+          "ccFwd_spec, ccBack_id, ccCount_counts, ccBins_counts, ccOuter_counts, perievent_window (slice = lags in [-w0, w1)), nbins_odd; "
+          "continuous peri-event: pcK_entries (the e-th event of epoch k gets the slice around a NEAREST sample of THAT epoch, clipped to "
+          "the epoch; events of an epoch without samples keep NaN columns; sorted samples and events of any length) from pcInner_closest / "
+          "pcI_nearest, and pc_layout (row o holds the sample o - w0 steps from it iff that position is inside the epoch)")
+NOT_PROVED = "normalisations (rate, reverse), lag-0 zeroing, the scatter of the stored slices into the output array (fancy indexing of the caller): oracle + correspondence only"
 ASSUMPTIONS = ["spike times on a dyadic lattice so that the accumulated float bin edges are exact"]
 U = 125000000     # 2^-3 s in ns
 
